@@ -41,6 +41,16 @@ def check(prop, tier, seed):
             if r.get('violated'):
                 raise ToolError(f'{cfg}: Mechanism model violates {r["violated"]}:\n' + r.get('output_tail', '')[-2500:])
             mc.append(r)
+    # unbounded: TLAPS proof of the Contract for any set of scripts, any number of calls, lazy or eager
+    pr = core.tlapm_check('ReconnectProof', ['Reconnect'])
+    if not pr['ok']:
+        raise ToolError('tlapm: the proof that Reconnect.tla satisfies the Contract (ReconnectProof.tla) no longer goes through:\n' + pr.get('output_tail', ''))
+    cov['tlaps_proof'] = {'theorem': 'Spec => []Contract for all Scripts, MaxCalls, Lazy', 'obligations_proved': pr['obligations'], 'wall_s': pr['wall_s']}
+    if tier == 'thorough':
+        neg = core.tlapm_check('ReconnectProof', ['Reconnect'], name='ReconnectProof_neg', mutate=lambda t: t.replace('TakeError = TRUE', 'TakeError \\in BOOLEAN'))
+        if neg['ok']:
+            raise ToolError('tlapm proved the Contract without assuming TakeError: the proof is vacuous')
+        cov['tlaps_proof']['without_take_error'] = 'proof fails (as it must)'
     mc.append(core.tlc_mc('MC_Reconnect', 'MC_Reconnect_keeperr.cfg', workers=4, expect_violation='Contract'))
     mc.append(core.tlc_mc('MC_Reconnect', 'MC_Reconnect_nohbc.cfg', workers=4, expect_violation='Contract'))
     stims = []
@@ -94,7 +104,7 @@ def check(prop, tier, seed):
                          ['calls are issued at quiescent points (1 ms of virtual time after every drop and call)',
                           'a call that ran into a dropped connection before the client noticed may fail once with any status',
                           'how often the connector is invoked per call is not constrained by the Contract'],
-                         'tlc MC_Reconnect_*.cfg, Gen_Reconnect_*.cfg; vh reconnect; tlc Trace_Reconnect.cfg; tlc Trace_ReconnectMech_*.cfg')
+                         'tlc MC_Reconnect_*.cfg, Gen_Reconnect_*.cfg; tlapm ReconnectProof.tla; vh reconnect; tlc Trace_Reconnect.cfg; tlc Trace_ReconnectMech_*.cfg')
 
 
 def replay(prop, path):
